@@ -175,6 +175,7 @@ Eval(e, st) ==
     [] e.k = "ternary" ->
          LET c == Eval(e.c, st) IN
          IF IsErr(c) THEN c
+         ELSE IF IsErr(TruthOf(c, st)) THEN TruthOf(c, st)      \* the condition is tested: a use of an undefined
          ELSE LET rv == IF Truthy(c) THEN Eval(e.left, st)
                         ELSE IF e.alt.k = "none" THEN Nil
                         ELSE LET a == Eval(e.alt, st) IN
